@@ -261,10 +261,13 @@ class Oracle:
         if e["ref"]:
             self.expected(world, world.key[id(world.by_ref[e["ref"]])])
         q = query_text(e, absolute_dir=True, directory_of=world.directory_of)
+        from liquer.cache import get_cache, set_cache, NoCache
         saved = get_store()
+        saved_cache = get_cache()
         counts = dict(COUNT)
         try:
             set_store(self.plain)
+            set_cache(NoCache())        # the oracle never shares cached results with the run under test
             with quiet():
                 st = evaluate(q)
                 if st.is_error:
@@ -274,6 +277,7 @@ class Oracle:
             self.bytes[key] = b
         finally:
             set_store(saved)
+            set_cache(saved_cache)
             COUNT.clear()
             COUNT.update(counts)
         return b
@@ -368,6 +372,8 @@ class Run:
                 continue
             m = self.entry[k]["marker"]
             d = COUNT.get(m, 0) - before.get(m, 0)
+            if CACHED["on"] and d <= deltas.get(k, 0):
+                continue        # with a result cache the recipe's commands run at most once per materialisation (a cache hit runs nothing)
             if d != deltas.get(k, 0):
                 what = "first read evaluates the recipe once" if deltas.get(k, 0) else "a read of an existing key does not evaluate again"
                 return self.report(fn, what, key_read=key, state_before_read=was, recipe_counted=k, evaluations_observed=d, evaluations_expected=deltas.get(k, 0))
@@ -500,6 +506,9 @@ class Run:
 def run_history(config, entries, hist_fn, violations, stats, variant, program_id=None):
     program_id = variant if program_id is None else program_id
     COUNT.clear()
+    if CACHED["on"]:
+        from liquer.cache import set_cache, MemoryCache
+        set_cache(MemoryCache())        # a fresh process-wide cache per history
     world = World(config, entries)
     try:
         COUNT.clear()
@@ -562,14 +571,31 @@ def random_history(run, rnd, maxlen=4):
     return h
 
 
+CACHED = {"on": False}
+
+
 def bounded(tier, seed):
+    """NoCache (the default configuration) over every store configuration, then the same with a process-wide MemoryCache over every
+    third configuration: a cache hit must still re-materialise a removed / cleaned key."""
+    a = bounded_with(tier, seed, False)
+    b = bounded_with(tier, seed + 1, True)
+    a["evaluations"] += b["evaluations"]
+    a["distinct_nontrivial"] += b["distinct_nontrivial"]
+    a["standins"] += b["standins"]
+    a["violations"] += b["violations"]
+    return a
+
+
+def bounded_with(tier, seed, cached):
     from liquer.cache import set_cache, NoCache
     rnd = random.Random(seed)
     violations = []
     stats = dict(evaluations=0)
     distinct = set()
     register_vocabulary()
-    set_cache(NoCache())
+    from liquer.cache import MemoryCache
+    CACHED["on"] = cached
+    set_cache(MemoryCache() if cached else NoCache())
     _ORACLE.clear()
     cases = 0
     nprograms = 10 if tier == "quick" else 40
@@ -577,6 +603,8 @@ def bounded(tier, seed):
     per_config_random = 3 if tier == "quick" else 50
     try:
         for ci, config in enumerate(CONFIGS):
+            if cached and ci % 3 != seed % 3:
+                continue
             # clause-covering histories: one program per configuration (rotating) at the quick tier, three at the thorough tier
             for v in ([ci % nprograms] if tier == "quick" else [(ci + 13 * j) % nprograms for j in range(3)]):
                 entries = programs[v]
@@ -598,6 +626,7 @@ def bounded(tier, seed):
                 run_history(config, programs[v], lambda run, hseed=hseed: random_history(run, random.Random(hseed)), violations, stats, v)
     finally:
         set_cache(None)
+        CACHED["on"] = False
         _ORACLE.clear()
         from liquer.commands import reset_command_registry
         reset_command_registry()
@@ -607,7 +636,7 @@ def bounded(tier, seed):
                      "'m/n'; recipes.yaml at depth 0-2; file stored before or through the recipe store); histories of read / observe / remove / clean_recipes of length <= 4 "
                      "(clause-covering + seeded random) against the life-cycle model, invocation counters of instrumented commands, and an oracle evaluating the hand-resolved "
                      "absolute query on plain data",
-                standins=[dict(name="recipe life cycle through get_store() vs model + direct evaluation", labelled="bounded",
+                standins=[dict(name="recipe life cycle through get_store() vs model + direct evaluation, %s" % ("process-wide MemoryCache" if cached else "NoCache"), labelled="bounded",
                                bound="36 store configurations x (clause-covering histories%s + %d seeded random histories of length <= 4) over %d generated recipe files"
                                      % (" (every fifth, one recipe file per configuration)" if tier == "quick" else " over 3 recipe files each", per_config_random, nprograms),
                                cases=cases, exhaustive=False)],
